@@ -82,10 +82,11 @@ def _selector(direction, cls, needs_y, extra=None, with_y=True):
     return dict(data=data, est=est, fit=fit, use=use, drop_y=(direction == "sample" and not needs_y and with_y))
 
 
-def _dch():
+def _dch(low_form="list"):
     def data(rng, k):
         X, y = _xy(rng, k, n=(16, 11), m=(4, 3))
-        return {"X": X, "y": y, "low": [1, 0]}
+        # the hull columns as a list, or as an index array that counts from the end (the caller's own array)
+        return {"X": X, "y": y, "low": [1, 0] if low_form == "list" else np.array([-1, 0])}
 
     def est(a):
         from skmatter.sample_selection import DirectionalConvexHull
@@ -323,6 +324,7 @@ SCENARIOS = {
     "sample.VoronoiFPS(y)": _selector("sample", "VoronoiFPS", False),
     "sample.VoronoiFPS(default switching point)": _selector("sample", "VoronoiFPS_default", False, with_y=False),
     "sample.DirectionalConvexHull": _dch(),
+    "sample.DirectionalConvexHull(index array counting from the end)": _dch("array"),
     # --- decomposition
     "PCovR(feature)": _pcovr("feature", "none"),
     "PCovR(sample, Ridge)": _pcovr("sample", "ridge"),
